@@ -554,6 +554,15 @@ impl HardLinkContainer {
             })?;
         }
 
+        // Nothing is deleted for a link that cannot be made: the source has
+        // to be there before the old destination goes away.
+        if let Err(e) = std::fs::symlink_metadata(source) {
+            return Err(StorageError::Archive(format!(
+                "hard link source {} is not available: {e}",
+                source.display()
+            )));
+        }
+
         // 3-retry delete before creating hard link
         for attempt in 0..3 {
             if destination.exists()
@@ -576,7 +585,13 @@ impl HardLinkContainer {
             break;
         }
 
+        let mut ekey = [0u8; 9];
+        ekey.copy_from_slice(&key[..9]);
+
         std::fs::hard_link(source, destination).map_err(|e| {
+            // The old destination is gone: whatever the cache says about
+            // it is no longer known to be true.
+            self.note_path_changed(&ekey, destination, false);
             StorageError::Archive(format!(
                 "failed to create hard link {} -> {}: {e}",
                 destination.display(),
@@ -585,8 +600,6 @@ impl HardLinkContainer {
         })?;
 
         // Update FD cache
-        let mut ekey = [0u8; 9];
-        ekey.copy_from_slice(&key[..9]);
         self.note_path_changed(&ekey, destination, true);
 
         debug!(
